@@ -163,6 +163,7 @@ def main(argv=None):
             print('replay %s: reproduced=%s\n%s' % (replay_path, ok, text)); return 1 if ok else 0
 
         obs = P.obligations(tier, seed)
+        _seen = set(); obs = [o for o in obs if not (o['name'] in _seen or _seen.add(o['name']))]          # an obligation generated twice (same name = same parameters) runs once
         if only: obs = [o for o in obs if only in o['name']]
         random.Random(seed).shuffle(obs)
         obs.sort(key=lambda o: -o.get('cost', 1))          # expensive first
